@@ -378,6 +378,25 @@ func (u *Unit) ExpandPredicate(e ast.Expr) ast.Expr {
 // the calls made by that helper — its own and, recursively, those of the
 // transparent helpers it calls — each placed at the location of the helper call
 // in u, so that dominance, guards and held locks are judged in the caller.
+// HelperSubst maps the parameters of the helper that cl calls to the arguments at this call (identifiers, selectors
+// and constants only: expressions whose value cannot change between the call and the use inside the helper).
+func HelperSubst(cl *Call) map[types.Object]ast.Expr {
+	subst := map[types.Object]ast.Expr{}
+	if cl.Callee == nil {
+		return subst
+	}
+	if sig, ok := cl.Callee.Type().(*types.Signature); ok && !sig.Variadic() {
+		for i := 0; i < sig.Params().Len() && i < len(cl.Expr.Args); i++ {
+			a := cl.Arg(i)
+			switch ast.Unparen(a).(type) {
+			case *ast.Ident, *ast.BasicLit, *ast.SelectorExpr:
+				subst[sig.Params().At(i)] = a
+			}
+		}
+	}
+	return subst
+}
+
 func (u *Unit) inlinedCalls(own []*Call) []*Call {
 	var out []*Call
 	for _, cl := range own {
@@ -388,18 +407,7 @@ func (u *Unit) inlinedCalls(own []*Call) []*Call {
 		if h == nil || h == u.Root() {
 			continue
 		}
-		// parameters of the helper → arguments at this call (identifiers and constants only: expressions whose value
-		// cannot change between the call and the use inside the helper)
-		subst := map[types.Object]ast.Expr{}
-		if sig, ok := cl.Callee.Type().(*types.Signature); ok && !sig.Variadic() {
-			for i := 0; i < sig.Params().Len() && i < len(cl.Expr.Args); i++ {
-				a := cl.Arg(i)
-				switch ast.Unparen(a).(type) {
-				case *ast.Ident, *ast.BasicLit, *ast.SelectorExpr:
-					subst[sig.Params().At(i)] = a
-				}
-			}
-		}
+		subst := HelperSubst(cl)
 		for _, hc := range h.Calls() {
 			c2 := *hc
 			c2.Loc = cl.Loc
